@@ -72,11 +72,17 @@ impl Numeric {
             }
             Parity::Float(left, right) => {
                 // The quotient is a whole number here too, as in the
-                // rational case (`%` already pairs with truncation).
-                (
-                    Numeric::Float((left / right).trunc()),
-                    Numeric::Float(left % right),
-                )
+                // rational case. The remainder has to be the one that
+                // goes with it: `left % right` is computed exactly, so
+                // it is a whole `right` off whenever the division
+                // rounded up to the next whole number.
+                let div = (left / right).trunc();
+                let mut rem = (-div).mul_add(right, left);
+                if rem != 0.0 && (rem < 0.0) != (left < 0.0) {
+                    // nothing is left, up to rounding
+                    rem = 0.0;
+                }
+                (Numeric::Float(div), Numeric::Float(rem))
             }
         }
     }
